@@ -5,7 +5,10 @@ check("C07", "model_checking",
       "resolver's decision order against it; every cell is replayed as a minimal fully annotated program on the real front end "
       "(accept/reject and the E5xx code on the construct). Seeded larger well-typed programs over all primitive types, the valid "
       "corpus and single-edit type-breaking mutants are compiled; every typed node of the resolved tree and every mutant is "
-      "validated by TLC against the same judgement. Exhaustive over the representative shapes on the real code, sampled beyond.",
+      "validated by TLC against the same judgement. Exhaustive over the representative shapes on the real code, sampled beyond. "
+      "Type inference (Inference.tla, the rule; InferenceAlg.tla, the three passes of typer.rs; TLC checks A |= R): every body with "
+      "unannotated declarations / unsuffixed literals up to the bound whose constraints are unsatisfiable or undetermined must be rejected, "
+      "and the types resolved in an accepted body are the unique solution.",
       "Trusted: TLC, the rule R in spec/TypeRules.tla (read off the property, docs/errors.md E5xx/E333, docs/features.md, "
       "docs/syntax.md), the renderer and the projection of resolved::ValueType. Shapes are representatives over i32 "
       "(thorough: more pointee/element types). Cells the docs leave open are unconstrained (spec/UNCONSTRAINED-types.md). "
